@@ -28,9 +28,24 @@ class ValidateSwizzleMaskVisitor(Visitor.DefaultVisitor):
 
         t = expr.GetParent().GetType()
 
-        with nsl.Errors.CompileExceptionToErrorHandler(self.errorHandler):
+        def OnError():
+            self.valid = False
+
+        with nsl.Errors.CompileExceptionToErrorHandler(
+            self.errorHandler, OnError
+        ):
             if t.IsPrimitive() and (t.IsVector() or t.IsScalar()):
-                ValidateSwizzleMask(expr.GetMember())
+                mask = expr.GetMember().GetName()
+                ValidateSwizzleMask(mask)
+
+                # Every selected component must exist in the swizzled type
+                componentCount = t.GetSize()[0] if t.IsVector() else 1
+                componentIndex = dict(zip("xyzwrgba", [0, 1, 2, 3] * 2))
+                if any([componentIndex[c] >= componentCount for c in mask]):
+                    nsl.Errors.ERROR_INVALID_SWIZZLE_MASK.Raise()
+
+        # The swizzled expression can contain further member accesses
+        self.v_Visit(expr.GetParent(), ctx)
 
 
 def GetPass():
